@@ -291,9 +291,9 @@ func (c *fctx) elemAccess(e ast.Expr, en *env, k func(base, idx string, st *stru
 }
 
 func (c *fctx) fieldOf(st *structInfo, sel *ast.SelectorExpr) string {
-	for _, f := range st.fields {
+	for i, f := range st.goNames { // [stable] the emitted name of the Go field
 		if f == sel.Sel.Name {
-			return f
+			return st.fields[i]
 		}
 	}
 	c.t.fail(sel, "field %s of %s", sel.Sel.Name, st.name)
